@@ -407,6 +407,16 @@ fn wrap_fn(spec: &SchemeSpec, text: String, ty: &MType) -> (String, MType) {
     if cands.is_empty() {
         return (text, ty.clone());
     }
+    // map-each with an expensive (memoised) non-mapped argument is the interesting shape for shared state:
+    // make it common whenever the path ends in [*]
+    if text.ends_with("[*]") && cands.contains(&"join") && chance(1, 3, "expr.memo_form") {
+        if let Some((p, _, _)) = gen_path(spec, Some(&MType::Bytes), false) {
+            let inner = ["lower", "echo"][choose(2, "expr.memo_inner")];
+            if spec.functions.contains(&inner) {
+                return (format!("join({text}, {inner}({p}))"), MType::Bytes);
+            }
+        }
+    }
     let fname = cands[choose(cands.len(), "expr.fname")];
     match fname {
         "len" => (format!("len({text})"), MType::Int),
